@@ -5,5 +5,5 @@ CONSTANTS
   Extra = 2
   MaxSN = 0
   MaxSU = 0
-INVARIANTS StateOK Emit
+INVARIANTS StateOK Emit EmitShort
 CHECK_DEADLOCK FALSE
